@@ -218,18 +218,29 @@ _CTOR_ARGS = {"version": "optint", "flags": "int"}
 CTOR_UNITS = [
     (IPFILE, "pysrc_ctor_gen.v", "", " Base.PyStr Model.SrcPreludeStr Model.AddrText Model.SrcPreludeCtor Gen.pysrc_gen",
      [("IPAddress", "__init__:int", dict(_CTOR_ARGS, addr="int")), ("IPAddress", "__init__:copy", dict(_CTOR_ARGS, addr="obj")),
-      ("IPAddress", "__init__:str", dict(_CTOR_ARGS, addr="str")),
+      ("IPAddress", "__init__:str", dict(_CTOR_ARGS, addr="str")), ("IPAddress", "__str__", {}),
       # pickled state (a state is the tuple of ints that __getstate__ made) and the IPRange constructor
       ("IPAddress", "value", {}), ("IPAddress", "__getstate__", {}), ("IPAddress", "__setstate__", {"state": "tup2"}),
       ("IPNetwork", "__getstate__", {}), ("IPNetwork", "__setstate__", {"state": "tup3"}),
       ("IPRange", "__getstate__", {}), ("IPRange", "__setstate__", {"state": "tup3"}),
       ("IPRange", "__init__:int", {"start": "int", "end": "int", "flags": "int"}),
       ("IPRange", "__init__:str", {"start": "str", "end": "str", "flags": "int"})]),
+    # the network parser and the IPNetwork constructor, specialised to the kind of `addr`: a tuple of ints | text | an IPNetwork
+    # object | an IPAddress object | an int (standing for every other type); text renderings
+    (IPFILE, "pysrc_parse_gen.v", "", " Base.PyStr Model.SrcPreludeStr Model.AddrText Model.SrcPreludeCtor Gen.pysrc_gen Gen.pysrc_ctor_gen",
+     [(None, "cidr_abbrev_to_verbose.classful_prefix:int", {"octet": "int"}),
+      (None, "cidr_abbrev_to_verbose.classful_prefix:str", {"octet": "str"}),
+      (None, "cidr_abbrev_to_verbose", {"abbrev_cidr": "str"})] +
+     [(None, "parse_ip_network:" + v, {"module": "mod", "addr": t, "implicit_prefix": "bool", "flags": "int"})
+      for v, t in (("tuple", "inttuple"), ("str", "str"), ("int", "int"))] +
+     [("IPNetwork", "__init__:" + v, {"addr": t, "implicit_prefix": "bool", "version": "optint", "flags": "int"})
+      for v, t in (("tuple", "inttuple"), ("str", "str"), ("net", "net"), ("addr", "obj"), ("int", "int"))] +
+     [("IPNetwork", "__str__", {})]),
 ]
 CTOR_FN_UNITS = tuple(u[1] for u in CTOR_UNITS)      # units whose functions are read by CtorFn
 UNITS += CTOR_UNITS
 FILES = FILES + CTOR_FN_UNITS
-UNIT_SEES = {}                          # unit -> earlier units over the same source file whose definitions it may call
+UNIT_SEES = {"pysrc_parse_gen.v": ("pysrc_ctor_gen.v",)}     # unit -> earlier units over the same source file whose definitions it may call
 BY_OUT = {}                             # output file -> its translator (filled by Translator.__init__)
 
 EXN = ("AddrFormatError", "AddrConversionError", "ValueError", "TypeError", "IndexError", "KeyError", "StructError",
@@ -279,7 +290,7 @@ def bad(node, why, fn=None):
 
 def mangle(recv, name, prefix=""):
     name, _, variant = name.partition(":")          # "method:variant" = a specialisation of the method (see UNITS)
-    return ("src_%s_%s" % (recv, name.strip("_")) if recv else "src_%s%s" % (prefix, name)) + ("_" + variant if variant else "")
+    return ("src_%s_%s" % (recv, name.strip("_")) if recv else "src_%s%s" % (prefix, name.replace(".", "_"))) + ("_" + variant if variant else "")
 
 
 def dotted(node):
@@ -1980,7 +1991,36 @@ def is_value(t):
 
 
 COQTY.update({"mod": "Z", "optstr": "(option string)", "inttuple": "(list Z)"})
-RESERVED |= set("be backend py_catch_all py_str_to_int py_int_to_str contains_char exn_eqb split1 py_split1 Platform Fallback".split())
+RESERVED |= set("be backend py_catch_all py_str_to_int py_int_to_str contains_char exn_eqb split join split1 py_split1_pair Platform Fallback "
+                "py_expand_partial_address py_prefix_to_netmask py_netmask_to_prefix py_prefix_to_hostmask py_hostmask_to_prefix "
+                "py_list_head fmt_d append length".split())
+
+
+_function_base = Module.function
+
+
+def _function(self, name):
+    """`outer.inner`: the def `inner` nested directly in the module-level function `outer` -- bound once there, undecorated, and
+    closure-free (it reads no parameter or local of `outer`), so that it can be translated like a module-level function"""
+    if "." not in name:
+        return _function_base(self, name)
+    outer, inner = name.split(".", 1)
+    f = _function_base(self, outer)
+    ds = [n for n in ast.walk(f) if n is not f and ((isinstance(n, (ast.FunctionDef, ast.ClassDef, ast.Lambda)) and getattr(n, "name", "") == inner)
+                                                     or (isinstance(n, ast.Name) and n.id == inner and isinstance(n.ctx, ast.Store)))]
+    g = ds[0] if len(ds) == 1 else None
+    if not isinstance(g, ast.FunctionDef) or g not in f.body or g.decorator_list:
+        bad(g or f, "%s is not bound exactly once, by a plain def directly inside %s" % (inner, outer))
+    mine = {a.arg for a in g.args.args} | {n.id for n in ast.walk(g) if isinstance(n, ast.Name) and isinstance(n.ctx, ast.Store)}
+    theirs = {a.arg for a in f.args.args} | {n.id for st in f.body if st is not g for n in ast.walk(st)
+                                             if isinstance(n, ast.Name) and isinstance(n.ctx, ast.Store)} | {inner}
+    if any(isinstance(n, ast.Name) and isinstance(n.ctx, ast.Load) and n.id in theirs - mine for n in ast.walk(g)) or any(
+            isinstance(n, (ast.Global, ast.Nonlocal)) for n in ast.walk(g)):
+        bad(g, "inner function %s reads a name of %s (a closure)" % (inner, outer))
+    return g
+
+
+Module.function = _function
 
 
 def fn_class(out):
